@@ -60,7 +60,7 @@ type httpSystem struct {
 
 func newHTTPSystem(cacheOn, thorough bool) *httpSystem {
 	s := &httpSystem{cacheOn: cacheOn, thorough: thorough}
-	s.outcomes = []string{cV1, cV2, cRJ, cEmpty, cInv, hUCT, h404, h500, hTransport, hTimeout, hBodyCut}
+	s.outcomes = []string{cV1, cV2, cRJ, cEmpty, cInv, hUCT, h404, h500, hTransport, hTimeout, hBodyCut, cBlank}
 
 	if thorough {
 		s.outcomes = append(s.outcomes, cBad, hEmptyNoCT, hJSONCT)
@@ -167,7 +167,7 @@ func respond(outcome string) (env.Responder, obs) {
 	}
 
 	switch outcome {
-	case cV1, cV2, cRJ, cEmpty, cInv, cBad:
+	case cV1, cV2, cRJ, cEmpty, cInv, cBad, cBlank:
 		return reply(http.StatusOK, "application/yaml", contentBytes[outcome]), classify(outcome)
 	case hEmptyNoCT:
 		return reply(http.StatusOK, "", ""), obs{class: oEmpty}
